@@ -89,6 +89,10 @@ _FIELD_VALUE_FORBIDDEN_CTL_RE: Final[Pattern[str]] = re.compile(
 VERSRE: Final[Pattern[str]] = re.compile(r"HTTP/(\d)\.(\d)", re.ASCII)
 DIGITS: Final[Pattern[str]] = re.compile(r"\d+", re.ASCII)
 HEXDIGITS: Final[Pattern[bytes]] = re.compile(rb"[0-9a-fA-F]+")
+# chunk-ext is tokens and quoted strings: no control bytes except HTAB
+_CHUNK_EXT_FORBIDDEN_CTL_RE: Final[Pattern[bytes]] = re.compile(
+    rb"[\x00-\x08\x0a-\x1f\x7f]"
+)
 
 # RFC 9110 singleton headers — duplicates are rejected in strict mode.
 # In lax mode (response parser default), the check is skipped entirely
@@ -667,6 +671,10 @@ class HttpRequestParser(HttpParser[RawRequestMessage]):
     def parse_message(self, lines: list[bytes]) -> RawRequestMessage:
         # request line
         line = lines[0].decode("utf-8", "surrogateescape")
+        # A bare CR or LF is not a line ending here (only CRLF is), but other
+        # recipients may read it as one: never let it through in the target.
+        if "\r" in line or "\n" in line:
+            raise BadStatusLine(line)
         try:
             method, path, version = line.split(" ", maxsplit=2)
         except ValueError:
@@ -1024,10 +1032,20 @@ class HttpPayloadParser:
                         i = chunk.find(CHUNK_EXT, 0, pos)
                         if i >= 0:
                             size_b = chunk[:i]  # strip chunk-extensions
-                            # Verify no LF in the chunk-extension
-                            if b"\n" in (ext := chunk[i:pos]):
+                            # Verify no LF, bare CR or other control byte in
+                            # the chunk-extension
+                            # (lax mode keeps the LF-only check: there the
+                            # line ends at LF and may carry a trailing CR).
+                            ext = chunk[i:pos]
+                            if (
+                                b"\n" in ext
+                                if self._lax
+                                else _CHUNK_EXT_FORBIDDEN_CTL_RE.search(ext)
+                            ):
                                 exc = TransferEncodingError(
                                     f"Unexpected LF in chunk-extension: {ext!r}"
+                                    if b"\n" in ext
+                                    else f"Unexpected control byte in chunk-extension: {ext!r}"
                                 )
                                 set_exception(self.payload, exc)
                                 raise exc
